@@ -56,19 +56,24 @@ def decoder_subjects(ctx, quick):
     S += c06corpus.lzip_subjects(rng, quick, 2 if quick else 10)
     S += c06corpus.block_index_subjects(rng, quick, 2 if quick else 12)
     S = [s for s in S if s["kind"] == "dec"]
+    S += c06corpus.first_symbol_subjects(rng, quick)
+    S += c06corpus.flag_variants(S, rng, 0.4 if quick else 1.0)
+    S += c06corpus.file_info_big_subjects(rng, quick)
     S += c06corpus.mt_big_subjects(rng, quick)
     # memory limits: tiny, exactly what the input needs, one byte less, ample
     HAS_LIMIT = ("stream_decoder", "stream_decoder_mt", "auto_decoder", "alone_decoder", "lzip_decoder", "index_decoder",
                  "file_info_decoder")
     out = []
     for s in S:
-        s = dict(s, args=dict(s["args"]), alloc=not s.get("mtbig"))
+        s = dict(s, args=dict(s["args"]), alloc=not (s.get("mtbig") or s.get("fibig")))
         out.append(s)
-        if s.get("mtbig"):
+        if s.get("mtbig") or s.get("fibig"):
             continue
         if s["entry"] in HAS_LIMIT and "memlimit" not in s["args"] and rng.random() < (0.5 if quick else 1.0):
             for lim in rng.sample(["exact", "exact-1", 1, 1 << 16], 2 if quick else 4):
                 t = dict(s, args=dict(s["args"], memlimit=lim), cls=s["cls"] + ":memlimit=" + str(lim))
+                if t.get("expect_ret"):
+                    t["expect_ret"] = list(t["expect_ret"]) + ["MEMLIMIT_ERROR"]
                 if s["entry"] == "stream_decoder_mt":
                     t["args"]["memlimit_threading"] = rng.choice([1, 1 << 16, 1 << 62])
                 out.append(t)
@@ -82,6 +87,10 @@ def c04_plans(s, ctx, sym, quick):
     bounds = [b for b in bounds if 0 < b < n]
     mt = s["entry"].endswith("_mt")
     P = []
+    if s.get("fibig"):
+        # the look-back logic of the file-info decoder: whole file, pieces, and pieces that end at the interesting offsets
+        return [{"k": "pieces", "size": 8192}, {"k": "pieces", "size": rng.choice((100, 4096, 5000))}] + \
+               [{"k": "two", "at": b + rng.choice((-1, 0, 1))} for b in rng.sample(bounds, min(3, len(bounds)))]
     if s.get("mtbig"):
         # input arriving over time in pieces smaller than the Block (workers run between the calls); the bulk at once and
         # the last bytes one at a time followed by a stalled caller (no new input, no output space), then the rest
